@@ -36,6 +36,15 @@ def main():
     checks = []
     for pid in sorted(CLAIMED):
         sec, text, tech = CLAIMED[pid]
+        # as built: theorems of Props/Cxx.lean that the claim text (written in round 3) does not name yet
+        import re as _re
+        _src = _re.sub(r'/-.*?-/', ' ', open(os.path.join(HERE, 'lean', 'Props', pid + '.lean')).read(), flags=_re.S)
+        _thms = _re.findall(r'^theorem\s+(\S+)', _src, _re.M)
+        _new = [t for t in _thms if t not in text]
+        if _new:
+            text = text + (' As built after rounds 5-7 Props/%s.lean holds %d audited theorems; the most recent, added for further '
+                           'construction routes, object histories and input classes (DESIGN.md section 10): %s.'
+                           % (pid, len(_thms), ('… ' if len(_new) > 16 else '') + ', '.join(_new[-16:])))
         ti = tie_info(pid)
         note_tie = ''
         if ti:
